@@ -113,10 +113,10 @@ func seq(n int) []int {
 	return r
 }
 
-// fullDirectives: everything except the very wide widths/precisions (indexes 9.. / 6..), which only C14's state
+// fullDirectives: everything except the very wide widths/precisions (indexes 10.. / 7..), which only C14's state
 // round-trip uses (they exist to expose truncation of width/precision to 8 or 16 bits; printing them is expensive).
 func fullDirectives() DirectiveSpace {
-	return DirectiveSpace{FlagSets: seq(32), Wids: seq(9), Precs: seq(6), Verbs: append(append([]rune{}, letterVerbs...), oddVerbs...)}
+	return DirectiveSpace{FlagSets: seq(32), Wids: seq(10), Precs: seq(7), Verbs: append(append([]rune{}, letterVerbs...), oddVerbs...)}
 }
 
 // quickDirectives: all 32 flag subsets x {none,7,*=-6} x {none,.1,.*} x 30 verbs.
